@@ -15,7 +15,7 @@ THEOREMS = [(M, "NQ.C18." + n) for n in [
     "mixed_key_not_globally_fifo",
     "structured_roundtrip", "recvWires_eq_gotOf", "sent_results", "compile_noCb", "socket_exactly_once_fifo",
     "socket_queue_path", "bsend_progress", "bsend_abort", "broadcast_delivers_each_once",
-    "broadcast_recv_nonblocking_is_noop"]]
+    "broadcast_recv_nonblocking_one_round"]]
 TRANSLATORS = []
 LEVEL_TEXT = (
     "Lean theorems about a transition system of _SocketHub at shared-access granularity (one step = one source "
@@ -43,8 +43,8 @@ LEVEL_NOTE = (
     "programs of hub operations plus a local view of the outcome; wires are text | json(header, payload); theorems "
     "socket_exactly_once_fifo, structured_roundtrip, sent_results, bsend_progress/bsend_abort, "
     "broadcast_delivers_each_once; the lock-step tie compares SOCKET-LEVEL results (the harness sends socket-level "
-    "programs, the driver compiles them). Open finding F29: BroadcastChannel.recv(block=False) never polls "
-    "(modelled as it is, broadcast_recv_nonblocking_is_noop). "
+    "programs, the driver compiles them). F48 (fixed): BroadcastChannel.recv(block=False) now polls every socket once "
+    "(broadcast_recv_nonblocking_one_round). "
     "PARTIAL (labelled): below statement granularity (preemption inside a source line / inside C code), timeouts, "
     "sleep (set to 0), garbage-collection driven __del__ and dead WeakMethods are not modelled; atomicity of single "
     "set/dict/list operations under the GIL and of threading.Lock is assumed; one thread per endpoint (a key is "
@@ -134,11 +134,11 @@ def run(ctx):
             except H.Stuck as e:
                 res.failures.append({"what": "harness could not drive the real hub: %s" % e, "kf": None,
                                      "input": {"progs": sp}})
-    # ---- open known finding F29 (witness first): non-blocking broadcast receive never polls
+    # ---- F48 (fixed): the witness of the non-blocking broadcast receive that never polled
     try:
-        corpus.append(H.run_case(H.f29_case(), H.preemptive_policy({}, [])))
+        corpus.append(H.run_case(H.f48_case(), H.preemptive_policy({}, [])))
     except H.Stuck as e:
-        res.failures.append({"what": "harness could not drive the real hub: %s" % e, "kf": None, "input": "f29_case"})
+        res.failures.append({"what": "harness could not drive the real hub: %s" % e, "kf": None, "input": "f48_case"})
     for hp in H.history_pairs():   # the delivery mode of a key changes across a disconnect / reconnect
         for pol in (H.preemptive_policy({}, []), H.forced([0] * 12 + [1] * 40 + [0, 1] * 60)):
             try:
